@@ -303,6 +303,8 @@ Internal ==
                     /\ (st.strictTimer => ~Urgent(st) /\ NoStaleAnswer),
                     MainTimeoutDo(st, k))
             \/ Step(MainAfterResetEn(st, k), MainAfterResetDo(st, k))
+            \/ Step(MainOnceWaitEn(st, k), MainOnceWaitDo(st, k))
+            \/ Step(RelOnceWaitEn(st, k), RelOnceWaitDo(st, k))
             \/ Step(MainAfterTimeoutEn(st, k), MainAfterTimeoutDo(st, k))
        \/ \E x \in DOMAIN st.rs :
             \/ Step(ResetCancelEn(st, x), ResetCancelDo(st, x))
